@@ -1,1 +1,207 @@
-//! (stub)
+//! Independent binning arithmetic for the UCSC/SAM/CSI binning scheme.
+//!
+//! Two formulations, written without looking at the noodles implementation:
+//!
+//! * `reg2bin_spec` / `reg2bins_spec` — line-by-line transcriptions of the C routines printed in
+//!   the CSI specification (`CSIv1`, "reg2bin"/"reg2bins") and, for the fixed geometry (14, 5), in
+//!   the SAM specification §5.3 (`reg2bin_sam`).
+//! * `reg2bin_def` — the *definition*: level `l` (0 = root) consists of `8^l` bins of
+//!   `2^(min_shift + 3·(depth − l))` positions each, numbered from `(8^l − 1)/7`; an interval belongs
+//!   to the deepest level at which one bin contains it entirely.
+//!
+//! All functions take zero-based half-open `[beg, end)` like the specification does; the
+//! `*_1based` helpers take one-based closed intervals.
+
+/// CSI specification, `reg2bin`:
+///
+/// ```c
+/// int reg2bin(int64_t beg, int64_t end, int min_shift, int depth)
+/// {
+///     int l, s = min_shift, t = ((1<<depth*3) - 1) / 7;
+///     for (--end, l = depth; l > 0; --l, s += 3, t -= 1<<l*3)
+///         if (beg>>s == end>>s) return t + (beg>>s);
+///     return 0;
+/// }
+/// ```
+pub fn reg2bin_spec(beg: i64, end: i64, min_shift: i32, depth: i32) -> i64 {
+    let mut s = min_shift;
+    let mut t: i64 = ((1i64 << (depth * 3)) - 1) / 7;
+    let end = end - 1;
+    let mut l = depth;
+    while l > 0 {
+        if beg >> s == end >> s {
+            return t + (beg >> s);
+        }
+        // C update expression: --l, s += 3, t -= 1<<l*3   (l already decremented)
+        l -= 1;
+        s += 3;
+        t -= 1i64 << (l * 3);
+    }
+    0
+}
+
+/// CSI specification, `reg2bins`:
+///
+/// ```c
+/// int reg2bins(int64_t beg, int64_t end, int min_shift, int depth, int *bins)
+/// {
+///     int l, t, n, s = min_shift + depth*3;
+///     for (--end, l = n = t = 0; l <= depth; s -= 3, t += 1<<l*3, ++l) {
+///         int b = t + (beg>>s), e = t + (end>>s), i;
+///         for (i = b; i <= e; ++i) bins[n++] = i;
+///     }
+///     return n;
+/// }
+/// ```
+pub fn reg2bins_spec(beg: i64, end: i64, min_shift: i32, depth: i32) -> Vec<i64> {
+    let mut bins = Vec::new();
+    let mut s = min_shift + depth * 3;
+    let end = end - 1;
+    let mut t: i64 = 0;
+    let mut l = 0;
+    while l <= depth {
+        let b = t + (beg >> s);
+        let e = t + (end >> s);
+        let mut i = b;
+        while i <= e {
+            bins.push(i);
+            i += 1;
+        }
+        s -= 3;
+        t += 1i64 << (l * 3);
+        l += 1;
+    }
+    bins
+}
+
+/// SAM specification §5.3 (fixed 14/5 geometry):
+///
+/// ```c
+/// int reg2bin(int beg, int end)
+/// {
+///     --end;
+///     if (beg>>14 == end>>14) return ((1<<15)-1)/7 + (beg>>14);
+///     if (beg>>17 == end>>17) return ((1<<12)-1)/7 + (beg>>17);
+///     if (beg>>20 == end>>20) return ((1<<9)-1)/7 + (beg>>20);
+///     if (beg>>23 == end>>23) return ((1<<6)-1)/7 + (beg>>23);
+///     if (beg>>26 == end>>26) return ((1<<3)-1)/7 + (beg>>26);
+///     return 0;
+/// }
+/// ```
+pub fn reg2bin_sam(beg: i64, end: i64) -> i64 {
+    let end = end - 1;
+    if beg >> 14 == end >> 14 {
+        return ((1 << 15) - 1) / 7 + (beg >> 14);
+    }
+    if beg >> 17 == end >> 17 {
+        return ((1 << 12) - 1) / 7 + (beg >> 17);
+    }
+    if beg >> 20 == end >> 20 {
+        return ((1 << 9) - 1) / 7 + (beg >> 20);
+    }
+    if beg >> 23 == end >> 23 {
+        return ((1 << 6) - 1) / 7 + (beg >> 23);
+    }
+    if beg >> 26 == end >> 26 {
+        return ((1 << 3) - 1) / 7 + (beg >> 26);
+    }
+    0
+}
+
+/// First bin id of level `l` (0 = root): (8^l − 1)/7.
+pub fn level_offset(l: u32) -> u64 {
+    ((1u64 << (3 * l)) - 1) / 7
+}
+
+/// Number of bins of a geometry: (8^(depth+1) − 1)/7. Real bin ids are `0..n_bins`.
+pub fn n_bins(depth: u32) -> u64 {
+    level_offset(depth + 1)
+}
+
+/// Number of addressable positions: 2^(min_shift + 3·depth).
+pub fn n_positions(min_shift: u32, depth: u32) -> u64 {
+    1u64 << (min_shift + 3 * depth)
+}
+
+/// Definition-based bin of `[beg, end)` (zero-based half-open, `beg < end ≤ n_positions`).
+pub fn reg2bin_def(beg: u64, end: u64, min_shift: u32, depth: u32) -> u64 {
+    let last = end - 1;
+    let mut l = depth;
+    loop {
+        let width_log2 = min_shift + 3 * (depth - l);
+        if beg >> width_log2 == last >> width_log2 {
+            return level_offset(l) + (beg >> width_log2);
+        }
+        if l == 0 {
+            // does not fit even the root (positions beyond the geometry): the spec routine says 0
+            return 0;
+        }
+        l -= 1;
+    }
+}
+
+/// Level (0 = root) of a bin id.
+pub fn bin_level(id: u64, depth: u32) -> Option<u32> {
+    (0..=depth).find(|&l| id >= level_offset(l) && id < level_offset(l + 1))
+}
+
+/// Zero-based half-open position range `[lo, hi)` covered by a bin.
+pub fn bin_range(id: u64, min_shift: u32, depth: u32) -> Option<(u64, u64)> {
+    let l = bin_level(id, depth)?;
+    let w = min_shift + 3 * (depth - l);
+    let k = id - level_offset(l);
+    Some((k << w, (k + 1) << w))
+}
+
+/// Parent bin (None for the root).
+pub fn parent(id: u64) -> Option<u64> {
+    if id == 0 { None } else { Some((id - 1) / 8) }
+}
+
+pub fn reg2bin_1based(start: u64, end: u64, min_shift: u32, depth: u32) -> u64 {
+    reg2bin_spec(start as i64 - 1, end as i64, min_shift as i32, depth as i32) as u64
+}
+
+pub fn reg2bins_1based(start: u64, end: u64, min_shift: u32, depth: u32) -> Vec<u64> {
+    reg2bins_spec(start as i64 - 1, end as i64, min_shift as i32, depth as i32).into_iter().map(|b| b as u64).collect()
+}
+
+/// Self-test against the examples worked in the SAM specification text and against each other.
+/// Returns a description of the first inconsistency (used by C17 before trusting the oracle).
+pub fn self_check() -> Result<(), String> {
+    // SAM spec §5.3: bin 0 spans 512 Mbp, bins 1-8 64 Mbp, 9-72 8 Mbp, 73-584 1 Mbp, 585-4680 128 kbp,
+    // 4681-37448 16 kbp.
+    let facts: [(u32, u64, u64); 6] = [(0, 0, 1 << 29), (1, 1, 1 << 26), (2, 9, 1 << 23), (3, 73, 1 << 20), (4, 585, 1 << 17), (5, 4681, 1 << 14)];
+    for (l, first, width) in facts {
+        if level_offset(l) != first {
+            return Err(format!("level_offset({l}) = {} expected {first}", level_offset(l)));
+        }
+        let r = bin_range(first, 14, 5).ok_or("bin_range none")?;
+        if r != (0, width) {
+            return Err(format!("bin_range({first}) = {r:?} expected (0,{width})"));
+        }
+    }
+    if n_bins(5) != 37449 {
+        return Err(format!("n_bins(5) = {}", n_bins(5)));
+    }
+    // the three formulations agree on an edge-dense sample of the (14,5) geometry
+    let edges: Vec<i64> = (0..=29).flat_map(|k| [(1i64 << k) - 1, 1i64 << k, (1i64 << k) + 1]).chain([3i64 << 13, 5 << 16, 7 << 19, 3 << 25]).filter(|&x| x >= 0 && x < (1 << 29)).collect();
+    for &b in &edges {
+        for &e in &edges {
+            if e <= b {
+                continue;
+            }
+            let a = reg2bin_spec(b, e, 14, 5);
+            let c = reg2bin_sam(b, e);
+            let d = reg2bin_def(b as u64, e as u64, 14, 5) as i64;
+            if a != c || a != d {
+                return Err(format!("reg2bin({b},{e}): csi-spec {a}, sam-spec {c}, definition {d}"));
+            }
+            let (lo, hi) = bin_range(a as u64, 14, 5).ok_or("range")?;
+            if !(lo as i64 <= b && e <= hi as i64) {
+                return Err(format!("bin {a} range [{lo},{hi}) does not contain [{b},{e})"));
+            }
+        }
+    }
+    Ok(())
+}
